@@ -1459,14 +1459,15 @@ func fsm7(c *Ctx) {
 		}
 	})
 	c.Check(okOnly, key+":flag-only-with-strip", fn.Pos(), "the caller's options-ended flag is set only together with the strip", "the options-ended flag is set without a `--` being dropped")
-	// (b) accept test on the same value
-	okAcc := false
-	why := "no terminal accept"
+	// (b) accept test on the same value: every terminal accept
+	okAcc := true
+	nAcc := 0
+	why := ""
 	for _, r := range ir.Returns(fn) {
 		if v, isC := ir.ConstBool(r.Results[0]); !isC || !v {
 			continue
 		}
-		// terminal accept = a true return not dominated by a recursive success
+		// terminal accept = a true return guarded by the state's Terminal flag
 		isTerm := false
 		ir.Instrs(fn, func(in ssa.Instruction) {
 			if tv, ok := in.(ssa.Value); ok {
@@ -1478,7 +1479,8 @@ func fsm7(c *Ctx) {
 		if !isTerm {
 			continue
 		}
-		why = "the emptiness test of the terminal accept is not made on the vector that is handed to Match (a trailing `--` is not transparent)"
+		nAcc++
+		good := false
 		ir.Instrs(fn, func(in ssa.Instruction) {
 			bo, ok := in.(*ssa.BinOp)
 			if !ok || bo.Op != token.EQL {
@@ -1495,9 +1497,16 @@ func fsm7(c *Ctx) {
 				return
 			}
 			if lc.Call.Args[0] == vec && ir.HoldsAt(bo, true, r.Block()) {
-				okAcc = true
+				good = true
 			}
 		})
+		if !good {
+			okAcc = false
+			why = fmt.Sprintf("the terminal accept at %s does not test emptiness of the vector that is handed to Match: a trailing `--` is not transparent (or input is accepted with tokens left)", c.P.Pos(r.Pos()))
+		}
+	}
+	if nAcc == 0 {
+		okAcc, why = false, "no terminal accept"
 	}
 	c.Check(okAcc, key+":accept-on-matcher-vector", fn.Pos(), "acceptance at a terminal state tests the very vector the matchers see (after the `--` strip)", why)
 }
